@@ -137,3 +137,29 @@ def hand_packed_keys(ix, f):
             out.append((c, V.text(key, 4, 200), f"`{name.split('.')[-1]}` over `{V.text(key, 3, 120)}`: two index columns packed into one integer in the array's own dtype"))
             break
     return out
+
+
+def returned_tuples(fnode, min_len=2):
+    """[(location statement, [element expressions])] for every tuple the function returns: `return a, b` directly, or
+    `return name` where every assignment of `name` is a tuple display (`result = (a, b)` in the arms of an if-chain).
+    The location statement is where the elements are evaluated (the Return, or the assignment)."""
+    out = []
+    stores = {}
+    for st in ast.walk(fnode):
+        if isinstance(st, ast.Assign) and len(st.targets) == 1 and isinstance(st.targets[0], ast.Name):
+            stores.setdefault(st.targets[0].id, []).append(st)
+    other_stores = {}
+    for n in ast.walk(fnode):
+        if isinstance(n, ast.Name) and isinstance(n.ctx, (ast.Store, ast.Del)):
+            other_stores[n.id] = other_stores.get(n.id, 0) + 1
+    for r in ast.walk(fnode):
+        if not isinstance(r, ast.Return) or r.value is None:
+            continue
+        if isinstance(r.value, ast.Tuple) and len(r.value.elts) >= min_len:
+            out.append((r, list(r.value.elts)))
+        elif isinstance(r.value, ast.Name):
+            defs = stores.get(r.value.id, [])
+            if defs and len(defs) == other_stores.get(r.value.id, 0) and all(isinstance(d.value, ast.Tuple) and len(d.value.elts) >= min_len for d in defs):
+                for d in defs:
+                    out.append((d, list(d.value.elts)))
+    return out
